@@ -129,6 +129,10 @@ inductive Res
   | tooLong        -- ENAMETOOLONG: an element longer than NAME_MAX in an existing directory
   deriving DecidableEq, Repr
 
+def Res.isFile : Res → Bool
+  | .file _ => true
+  | _ => false
+
 /-- kernel path walk below the sandbox: `pre` already resolved, `rest` to go -/
 def walk (tree : List Entry) (pre : List Str) : List Str → Res
   | [] =>
